@@ -12,20 +12,23 @@ variable {K : Type} {A : CRS K} {n : Nat} {degree : Array Nat} {maxDeg : Nat}
 
 theorem mainLoop_spec (C : Ctx A n degree maxDeg) (reverse : Bool) {walkFuel : Nat} (hfuel : n ≤ walkFuel) :
     ∀ (fuel : Nat) (s : St), Inv n maxDeg s → n ≤ fuel + s.next →
-    ∃ s', mainLoop reverse A n degree walkFuel fuel s = .ok s' ∧ Inv n maxDeg s' ∧ s'.next = n := by
+    ∃ s', mainLoop reverse A n degree walkFuel fuel s = .ok s' ∧ Inv n maxDeg s' ∧ s'.next = n ∧
+      ∀ k, k < s.next → s'.perm.getD k 0 = s.perm.getD k 0 := by
   intro fuel
   induction fuel with
   | zero =>
     intro s hs hn
     have h1 : ¬ s.next < n := by omega
-    exact ⟨s, by simp only [mainLoop, if_neg h1], hs, by have := hs.lab.next_le; omega⟩
+    exact ⟨s, by simp only [mainLoop, if_neg h1], hs, by have := hs.lab.next_le; omega, fun _ _ => rfl⟩
   | succ fuel ih =>
     intro s hs hn
     by_cases h1 : s.next < n
-    · obtain ⟨s1, hl, hI1, hlt⟩ := level_spec C reverse hfuel hs h1
-      obtain ⟨s2, h2, hI2, hn2⟩ := ih s1 hI1 (by omega)
-      exact ⟨s2, by simp only [mainLoop, if_pos h1, hl, Res.bind_ok, h2], hI2, hn2⟩
-    · exact ⟨s, by simp only [mainLoop, if_neg h1], hs, by have := hs.lab.next_le; omega⟩
+    · obtain ⟨s1, hl, hI1, hlt, hp1⟩ := level_spec C reverse hfuel hs h1
+      obtain ⟨s2, h2, hI2, hn2, hp2⟩ := ih s1 hI1 (by omega)
+      refine ⟨s2, by simp only [mainLoop, if_pos h1, hl, Res.bind_ok, h2], hI2, hn2, ?_⟩
+      intro k hk
+      rw [hp2 k (by omega), hp1 k hk]
+    · exact ⟨s, by simp only [mainLoop, if_neg h1], hs, by have := hs.lab.next_le; omega, fun _ _ => rfl⟩
 
 /-! ## degrees -/
 
@@ -67,14 +70,14 @@ theorem ctx_of_wf (A : CRS K) (hsq : A.ncols = A.nrows) (hwf : A.WF) :
 /-! ## the state before the main loop -/
 
 theorem initSt_spec (A : CRS K) (perm0 : Array Nat) (hn : 1 ≤ A.nrows) (hp : perm0.size = A.nrows) :
-    ∃ s, initSt A perm0 = .ok s ∧ Inv A.nrows (maxDegree (degrees A)) s ∧ s.next = 1 := by
+    ∃ s, initSt A perm0 = .ok s ∧ Inv A.nrows (maxDegree (degrees A)) s ∧ s.next = 1 ∧ s.perm.getD 0 0 = 0 := by
   unfold initSt
   have hd0 : (degrees A).getD 0 0 ≤ maxDegree (degrees A) := getD_le_maxDegree _ 0
   have hdsz : (degrees A).size = A.nrows := by simp [degrees, CRS.nrows]
   simp only [bind_def, pure_def]
   rw [wr_ok _ (by omega), Res.bind_ok, wr_ok _ (by rw [Array.size_replicate]; omega), Res.bind_ok,
     rd_ok 0 (by omega), Res.bind_ok, wr_ok _ (by rw [Array.size_replicate]; omega), Res.bind_ok]
-  refine ⟨_, rfl, ?_, rfl⟩
+  refine ⟨_, rfl, ?_, rfl, getD_setIfInBounds_self _ _ _ (by omega)⟩
   have p0 : (perm0.setIfInBounds 0 0).getD 0 0 = 0 := getD_setIfInBounds_self _ _ _ (by omega)
   have lget : ∀ v, ((Array.replicate A.nrows 0).setIfInBounds 0 1).getD v 0 = if v = 0 then 1 else 0 := by
     intro v
@@ -127,12 +130,13 @@ theorem initSt_spec (A : CRS K) (perm0 : Array Nat) (hn : 1 ≤ A.nrows) (hp : p
 theorem getFuel_spec (reverse : Bool) (A : CRS K) (perm0 : Array Nat) (hn : 1 ≤ A.nrows) (hsq : A.ncols = A.nrows)
     (hwf : A.WF) (hp : perm0.size = A.nrows) {mainFuel walkFuel : Nat} (hm : A.nrows ≤ mainFuel)
     (hw : A.nrows ≤ walkFuel) :
-    ∃ perm, getFuel reverse A perm0 mainFuel walkFuel = .ok perm ∧ PermOn A.nrows perm := by
-  obtain ⟨s0, h0, hI0, hn0⟩ := initSt_spec A perm0 hn hp
-  obtain ⟨s1, h1, hI1, hn1⟩ := mainLoop_spec (ctx_of_wf A hsq hwf) reverse hw mainFuel s0 hI0 (by omega)
-  refine ⟨s1.perm, by simp only [getFuel, h0, Res.bind_ok, h1], hI1.lab.hperm, ?_, ?_⟩
+    ∃ perm, getFuel reverse A perm0 mainFuel walkFuel = .ok perm ∧ PermOn A.nrows perm ∧ perm.getD 0 0 = 0 := by
+  obtain ⟨s0, h0, hI0, hn0, hz0⟩ := initSt_spec A perm0 hn hp
+  obtain ⟨s1, h1, hI1, hn1, hp1⟩ := mainLoop_spec (ctx_of_wf A hsq hwf) reverse hw mainFuel s0 hI0 (by omega)
+  refine ⟨s1.perm, by simp only [getFuel, h0, Res.bind_ok, h1], ⟨hI1.lab.hperm, ?_, ?_⟩, ?_⟩
   · intro i hi; exact (hI1.lab.lab i (by omega)).1
   · intro i j hi hj hij; exact hI1.lab.inj i j (by omega) (by omega) hij
+  · rw [hp1 0 (by omega), hz0]
 
 /-! ## the result does not depend on the fuel (the fuelled loops are the unbounded loops) -/
 
